@@ -22,7 +22,7 @@ import (
 	"verif/run"
 )
 
-func TestMain(m *testing.M) { gen.AvoidZeroExp = true; gen.Avoided = run.Avoided; run.Main(m, "C17") }
+func TestMain(m *testing.M) { gen.Avoided = run.Avoided; run.Main(m, "C17") }
 
 const (
 	chkRender = "render"
